@@ -130,10 +130,14 @@ class ExtV:
 
 
 class NDArr:
-    """One-dimensional float array (the distance vector): only the operations below are modelled."""
+    """One-dimensional numeric array (the distance vector, index arrays, masks): only the operations below are modelled."""
 
-    def __init__(self, values):
-        self.v = [float(x) for x in values]
+    def __init__(self, values, kind='f'):
+        self.kind = kind
+        conv = float if kind == 'f' else (bool if kind == 'b' else int)
+        self.v = [conv(x) for x in values]
+
+    ndim = 1
 
     def __len__(self):
         return len(self.v)
@@ -143,18 +147,47 @@ class NDArr:
 
     def __getitem__(self, i):
         if isinstance(i, slice):
-            return NDArr(self.v[i])
+            return NDArr(self.v[i], self.kind)
+        if isinstance(i, NDArr):
+            i = i.v if i.kind != 'b' else [k for k, t in enumerate(i.v) if t]
+        if isinstance(i, (list, tuple)):
+            if i and all(isinstance(k, bool) for k in i):
+                if len(i) != len(self.v):
+                    raise IndexError('boolean index did not match indexed array')
+                return NDArr([x for x, t in zip(self.v, i) if t], self.kind)
+            return NDArr([self.v[k] for k in i], self.kind)
         if isinstance(i, bool) or not isinstance(i, int):
             raise Undecided(f'evaluator: ndarray index of type {type(i).__name__} is not modelled')
         return self.v[i]
 
-    def __bool__(self):
-        raise Undecided('evaluator: truth value of an ndarray is not modelled')
+    def __setitem__(self, i, x):
+        if isinstance(i, bool) or not isinstance(i, int):
+            raise Undecided('evaluator: ndarray store with a non-integer index is not modelled')
+        self.v[i] = float(x) if self.kind == 'f' else x
 
-    def __eq__(self, other):
-        raise Undecided('evaluator: ndarray comparison is not modelled')
+    def copy(self):
+        return NDArr(self.v, self.kind)
+
+    def tolist(self):
+        return list(self.v)
+
+    def _cmp(self, other, op):
+        o = other.v if isinstance(other, NDArr) else [other] * len(self.v)
+        if len(o) != len(self.v):
+            raise ValueError('operands could not be broadcast together')
+        return NDArr([op(a, b) for a, b in zip(self.v, o)], 'b')
+
+    def __bool__(self):
+        if len(self.v) == 1:
+            return bool(self.v[0])
+        raise ValueError('The truth value of an array with more than one element is ambiguous')
 
     __hash__ = None
+
+
+class _DTypeV:
+    def __init__(self, kind):
+        self.kind, self.itemsize = kind, 8
 
 
 def _argmin(a, *rest, **kw):
@@ -166,6 +199,62 @@ def _argmin(a, *rest, **kw):
     return min(range(len(v)), key=lambda i: v[i])      # first minimum (numpy semantics, no NaN in the model)
 
 
+STABLE_SORT_KINDS = ('stable', 'mergesort')
+
+
+def _as_list(a):
+    return list(a.v) if isinstance(a, NDArr) else list(a)
+
+
+def _argsort(a, axis=-1, kind=None, order=None):
+    """kind stable/mergesort: ascending, ties by position.  Any other kind: NumPy promises nothing about ties - modelled
+    ADVERSARIALLY (ties in reverse position), so a result that depends on the tie order of an unstable sort shows up as a deviation."""
+    v = _as_list(a)
+    if kind in STABLE_SORT_KINDS:
+        return NDArr(sorted(range(len(v)), key=lambda i: v[i]), 'i')
+    return NDArr(sorted(range(len(v)), key=lambda i: (v[i], -i)), 'i')
+
+
+def _argpartition(a, kth, axis=-1, kind='introselect', order=None):
+    """Adversarial model: the kth smallest lands at position kth, smaller-or-equal before it; among equal values the LATER
+    positions are preferred and the order inside each side is reversed."""
+    v = _as_list(a)
+    if isinstance(kth, bool) or not isinstance(kth, int):
+        raise Undecided('evaluator: argpartition with a non-integer kth is not modelled')
+    if not -len(v) <= kth < len(v):
+        raise ValueError(f'kth(={kth}) out of bounds ({len(v)})')
+    order_ = sorted(range(len(v)), key=lambda i: (v[i], -i))
+    k = kth % len(v)
+    return NDArr(list(reversed(order_[:k])) + [order_[k]] + list(reversed(order_[k + 1:])), 'i')
+
+
+def _partition(a, kth, axis=-1, kind='introselect', order=None):
+    v = _as_list(a)
+    idx = _argpartition(a, kth)
+    return NDArr([v[i] for i in idx.v], 'f')
+
+
+def _np_array(x, dtype=None, copy=True):
+    return NDArr(_as_list(x), x.kind if isinstance(x, NDArr) and dtype is None else ('f' if dtype in (None, float, 'f', 'float64', 'float32') else 'i'))
+
+
+def _np_asarray(x, dtype=None):
+    if isinstance(x, NDArr) and dtype is None:
+        return x
+    return _np_array(x, dtype)
+
+
+def _np_empty(shape, dtype=None):
+    n = shape if isinstance(shape, int) else (shape[0] if len(shape) == 1 else None)
+    if n is None:
+        raise Undecided('evaluator: numpy.empty of a non-1D shape is not modelled')
+    return NDArr([0] * n, 'f' if dtype in (None, float) else 'i')
+
+
+def _np_sort(a, axis=-1, kind=None, order=None):
+    return NDArr(sorted(_as_list(a)), a.kind if isinstance(a, NDArr) else 'f')
+
+
 def _zip_strict(*its):
     return zip(*its, strict=True)
 
@@ -173,6 +262,10 @@ def _zip_strict(*its):
 # externals with a native model (trusted base): dotted name -> value
 NATIVES = {
     'numpy.argmin': _argmin, 'numpy.inf': float('inf'), 'math.inf': float('inf'), 'math.isinf': math.isinf,
+    'numpy.argsort': _argsort, 'numpy.argpartition': _argpartition, 'numpy.partition': _partition, 'numpy.array': _np_array, 'numpy.asarray': _np_asarray,
+    'numpy.empty': _np_empty, 'numpy.sort': _np_sort, 'numpy.flatnonzero': lambda a: NDArr([i for i, t in enumerate(_as_list(a)) if t], 'i'),
+    'numpy.arange': lambda *a: NDArr(list(range(*a)), 'i'), 'numpy.intp': int, 'numpy.int64': int, 'numpy.float64': float, 'numpy.float32': float,
+    'numpy.ndarray': NDArr, 'numpy.integer': int, 'numpy.isnan': lambda x: (x != x) if not isinstance(x, NDArr) else NDArr([y != y for y in x.v], 'b'),
     'gambit.util.misc.zip_strict': _zip_strict,
     'collections.defaultdict': collections.defaultdict, 'collections.OrderedDict': collections.OrderedDict,
     'itertools.chain': itertools.chain, 'itertools.islice': itertools.islice, 'itertools.takewhile': itertools.takewhile,
@@ -466,13 +559,29 @@ class Ev:
             if attr in ('__name__', '__qualname__'):
                 return v.ci.name
             raise Undecided(f'evaluator: class attribute {v.ci.name}.{attr} is not modelled')
+        if isinstance(v, _DTypeV):
+            if attr in ('kind', 'itemsize'):
+                return getattr(v, attr)
+            raise Undecided(f'evaluator: dtype.{attr} is not modelled')
         if isinstance(v, NDArr):
             if attr == 'argmin':
                 return lambda *a, **k: _argmin(v, *a, **k)
-            if attr == 'tolist':
-                return lambda: list(v.v)
+            if attr == 'argsort':
+                return lambda *a, **k: _argsort(v, *a, **k)
+            if attr in ('tolist', 'copy'):
+                return getattr(v, attr)
             if attr == 'shape':
                 return (len(v),)
+            if attr in ('size',):
+                return len(v)
+            if attr == 'ndim':
+                return 1
+            if attr == 'dtype':
+                return _DTypeV(v.kind)
+            if attr == 'sort':
+                def _inplace(*a, **k):
+                    v.v.sort()
+                return _inplace
             raise Undecided(f'evaluator: ndarray.{attr} is not modelled')
         if attr.startswith('__') and not (attr in ('__contains__', '__getitem__', '__len__', '__iter__') and isinstance(v, _NATIVE_TYPES)):
             raise Undecided(f'evaluator: special attribute {attr} is not modelled')
@@ -598,6 +707,9 @@ class Ev:
             if isinstance(op, (ast.Is, ast.IsNot)):
                 res = (left is right) == isinstance(op, ast.Is)
             else:
+                if (isinstance(left, NDArr) or isinstance(right, NDArr)) and isinstance(op, (ast.Lt, ast.LtE, ast.Gt, ast.GtE, ast.Eq, ast.NotEq)) and len(e.ops) == 1:
+                    arr, oth, o2 = (left, right, _CMPOPS[type(op)]) if isinstance(left, NDArr) else (right, left, _CMPOPS[type({ast.Lt: ast.Gt, ast.Gt: ast.Lt, ast.LtE: ast.GtE, ast.GtE: ast.LtE}.get(type(op), type(op))())])
+                    return self.native(arr._cmp, (oth, o2), {}, e)
                 if isinstance(left, (NDArr, ExtV)) or isinstance(right, ExtV) or (isinstance(right, NDArr) and not isinstance(op, (ast.In, ast.NotIn))):
                     raise Undecided(f'evaluator: comparison `{u(e)[:60]}` is not modelled')
                 if isinstance(op, (ast.Lt, ast.LtE, ast.Gt, ast.GtE)) and (isinstance(left, Rec) or isinstance(right, Rec)):
@@ -734,7 +846,7 @@ class Ev:
             o._f[t.attr] = v
         elif isinstance(t, ast.Subscript):
             o = self.ev(t.value, fr)
-            if isinstance(o, (Rec, NDArr, ExtV)):
+            if isinstance(o, (Rec, ExtV)):
                 raise Undecided(f'evaluator: store to `{u(t)}` is not modelled')
             self.native(operator.setitem, (o, self.ev(t.slice, fr), v), {}, t)
         else:
